@@ -159,6 +159,24 @@ constexpr auto swap(pair<T1, T2>& lhs, pair<T1, T2>& rhs) noexcept(noexcept(lhs.
     lhs.swap(rhs);
 }
 
+template <typename T>
+struct reference_wrapper;
+
+namespace detail {
+template <typename T>
+struct pair_unwrap_refwrapper {
+    using type = T;
+};
+
+template <typename T>
+struct pair_unwrap_refwrapper<reference_wrapper<T>> {
+    using type = T&;
+};
+
+template <typename T>
+using pair_unwrap_decay_t = typename pair_unwrap_refwrapper<decay_t<T>>::type;
+} // namespace detail
+
 /// \brief Creates a etl::pair object, deducing the target type from the types
 /// of arguments.
 ///
@@ -168,9 +186,10 @@ constexpr auto swap(pair<T1, T2>& lhs, pair<T1, T2>& rhs) noexcept(noexcept(lhs.
 ///
 /// https://en.cppreference.com/w/cpp/utility/pair/make_pair
 template <typename T1, typename T2>
-[[nodiscard]] constexpr auto make_pair(T1&& t, T2&& u) -> pair<decay_t<T1>, decay_t<T2>>
+[[nodiscard]] constexpr auto make_pair(T1&& t, T2&& u)
+    -> pair<detail::pair_unwrap_decay_t<T1>, detail::pair_unwrap_decay_t<T2>>
 {
-    return {etl::forward<T1>(t), etl::forward<T2>(u)};
+    return pair<detail::pair_unwrap_decay_t<T1>, detail::pair_unwrap_decay_t<T2>>(etl::forward<T1>(t), etl::forward<T2>(u));
 }
 
 /// \brief Tests if both elements of lhs and rhs are equal, that is, compares
